@@ -133,8 +133,14 @@ def _check(pid: str, tier: str, seed: int, t0: float) -> int:
     missing = [k for k in keys if k not in REGISTRY]
     if missing:
         raise RuntimeError(f"no contract for {missing}")
+    # stand-ins start right away in the background (they do not depend on the
+    # proofs; they are re-run with the counter-models as seeds if any exist)
+    from concurrent.futures import ThreadPoolExecutor
+    tpe = ThreadPoolExecutor(max_workers=4)
+    early = {name: tpe.submit(run_standin, name, tier, seed, [])
+             for name in cfg.get("standins", [])}
     # ---- deductive part (parallel, one process per function) --------------
-    nproc = max(1, min(12, len(keys)))
+    nproc = max(1, min(10, len(keys)))
     reports: Dict[str, Any] = {}
     stats_total: Dict[str, float] = {}
     errors: List[str] = []
@@ -215,7 +221,12 @@ def _check(pid: str, tier: str, seed: int, t0: float) -> int:
     standins = []
     failures = []
     for name in cfg.get("standins", []):
-        res = run_standin(name, tier, seed, hints)
+        res = early[name].result()
+        if hints and not res.get("error") and not res.get("failures"):
+            # replay: seed the stand-in with the solver's counter-models
+            res2 = run_standin(name, tier, seed, hints)
+            if res2.get("error") or res2.get("failures"):
+                res = res2
         res["name"] = name
         standins.append(res)
         if res.get("error"):
